@@ -217,10 +217,16 @@ class _Helper(object):
             elif isinstance(s, ast.If):
                 has = any(isinstance(x, ast.Return) for x in _walk_own(s))
                 if has:
-                    # both arms are themselves tail-return blocks; an arm that contains a return must END the function
+                    # both arms are themselves tail-return blocks; an arm that contains a return either ENDS the function or, where it
+                    # falls through (`if a: if b: return X` ; rest), continues with the statements after the if -- which must then be
+                    # tail-return blocks too (see _tail: they are repeated at the end of that arm)
+                    rest = body[i + 1:]
                     for arm in (s.body, s.orelse):
                         if any(isinstance(x, ast.Return) for st in arm for x in _walk_own(st)):
-                            if not self._returns_in_tail(arm) or not _ends(arm):
+                            if _ends(arm):
+                                if not self._returns_in_tail(arm):
+                                    return False
+                            elif len(rest) > 6 or not self._returns_in_tail(list(arm) + list(rest)):
                                 return False
             elif isinstance(s, (ast.FunctionDef, ast.AsyncFunctionDef)):
                 continue
@@ -296,12 +302,17 @@ def _tail(body, mk, at):
         if isinstance(s, ast.If) and _has_return([s]):
             rest = body[i + 1:]
             b_ret, e_ret = _has_return(s.body), _has_return(s.orelse)
+            # an arm that returns on every path ends there; one that may fall through goes on with (its own copy of) what follows the if
+            def cont(arm, ret):
+                if ret and _ends(arm):
+                    return list(arm)
+                return list(arm) + (copy.deepcopy(rest) if ret else rest)
             if b_ret and e_ret:
-                nb, ne = _tail(s.body, mk, at), _tail(s.orelse, mk, at)          # what follows is unreachable
+                nb, ne = _tail(cont(s.body, True), mk, at), _tail(cont(s.orelse, True), mk, at)
             elif b_ret:
-                nb, ne = _tail(s.body, mk, at), _tail(list(s.orelse) + rest, mk, at)
+                nb, ne = _tail(cont(s.body, True), mk, at), _tail(list(s.orelse) + rest, mk, at)
             else:
-                nb, ne = _tail(list(s.body) + rest, mk, at), _tail(s.orelse, mk, at)
+                nb, ne = _tail(list(s.body) + rest, mk, at), _tail(cont(s.orelse, True), mk, at)
             out.append(ast.copy_location(ast.If(test=s.test, body=nb or [ast.copy_location(ast.Pass(), s)], orelse=ne), s))
             return out
         if isinstance(s, (ast.With, ast.AsyncWith)) and i == len(body) - 1 and _has_return([s]):
@@ -547,6 +558,64 @@ class Inliner(object):
             if isinstance(s, ast.Try):
                 for h in s.handlers:
                     h.body = self.block(h.body, fn, names, cls_stack)
+            # a short-circuit expression (`return a or h(x) or h(y)`, `ok = a and h(x)`, `if a or h(x):`) one of whose LATER operands calls a
+            # helper: written as the if-chain it abbreviates, so that the helper calls become statement-level calls
+            bo = getattr(s, 'value', None) if isinstance(s, (ast.Return, ast.Assign)) else (s.test if isinstance(s, ast.If) else None)
+            if isinstance(bo, ast.BoolOp) and any(self._callee(x, cls_stack) and self._callee(x, cls_stack)[0].node is not fn
+                                                  for v_ in bo.values[1:] for x in ast.walk(v_) if isinstance(x, (ast.Call, ast.Await))):
+                is_or = isinstance(bo.op, ast.Or)
+
+                def cond(e, at):
+                    return e if is_or else ast.copy_location(ast.UnaryOp(op=ast.Not(), operand=e), at)
+                new_ = None
+                if isinstance(s, ast.Return):
+                    new_ = []
+                    for v_ in bo.values[:-1]:
+                        if _is_bool(v_):
+                            new_.append(ast.copy_location(ast.If(test=cond(v_, v_), body=[ast.copy_location(ast.Return(value=ast.copy_location(ast.Constant(value=is_or), v_)), s)], orelse=[]), s))
+                        else:
+                            self.tmp += 1
+                            nm = '_v%d' % self.tmp
+                            names = names | {nm}
+                            pre = ast.copy_location(ast.Assign(targets=[ast.Name(id=nm, ctx=ast.Store())], value=v_), s)
+                            pre._inl = True
+                            new_.append(pre)
+                            new_.append(ast.copy_location(ast.If(test=cond(ast.copy_location(ast.Name(id=nm, ctx=ast.Load()), v_), v_),
+                                                                 body=[ast.copy_location(ast.Return(value=ast.copy_location(ast.Name(id=nm, ctx=ast.Load()), v_)), s)], orelse=[]), s))
+                    new_.append(ast.copy_location(ast.Return(value=bo.values[-1]), s))
+                elif isinstance(s, ast.Assign) and len(s.targets) == 1 and isinstance(s.targets[0], ast.Name) \
+                        and not any(isinstance(x, ast.Name) and x.id == s.targets[0].id for v_ in bo.values[1:] for x in ast.walk(v_)):
+                    tn_ = s.targets[0].id
+                    first = ast.copy_location(ast.Assign(targets=[ast.Name(id=tn_, ctx=ast.Store())], value=bo.values[0]), s)
+                    if getattr(s, '_inl', False):
+                        first._inl = True
+                    new_ = [first]
+                    holder = new_
+                    for v_ in bo.values[1:]:
+                        nxt = ast.copy_location(ast.Assign(targets=[ast.Name(id=tn_, ctx=ast.Store())], value=v_), s)
+                        test_ = ast.copy_location(ast.Name(id=tn_, ctx=ast.Load()), v_)
+                        if is_or:
+                            test_ = ast.copy_location(ast.UnaryOp(op=ast.Not(), operand=test_), v_)
+                        guard = ast.copy_location(ast.If(test=test_, body=[nxt], orelse=[]), s)
+                        holder.append(guard)
+                        holder = guard.body
+                elif isinstance(s, ast.If):
+                    self.tmp += 1
+                    nm = '_v%d' % self.tmp
+                    names = names | {nm}
+                    pre = ast.copy_location(ast.Assign(targets=[ast.Name(id=nm, ctx=ast.Store())], value=bo), s)
+                    pre._inl = True
+                    s.test = ast.copy_location(ast.Name(id=nm, ctx=ast.Load()), bo)
+                    out.extend(self.block([pre], fn, names, cls_stack))
+                    out.append(s)
+                    self.count += 1
+                    continue
+                if new_ is not None:
+                    for x in new_:
+                        ast.fix_missing_locations(x)
+                    self.count += 1
+                    out.extend(self.block(new_, fn, names, cls_stack))
+                    continue
             # the value of an if-test: hoist into a temporary first
             if isinstance(s, ast.If):
                 t = s.test
@@ -768,6 +837,17 @@ def _eval_order(e):
                 for x in _eval_order(ch):
                     yield x
         yield e
+
+
+def _is_bool(e):
+    """a bool by construction: not X, a comparison, and/or of such"""
+    if isinstance(e, ast.UnaryOp) and isinstance(e.op, ast.Not):
+        return True
+    if isinstance(e, ast.Compare):
+        return True
+    if isinstance(e, ast.BoolOp):
+        return all(_is_bool(v) for v in e.values)
+    return isinstance(e, ast.Constant) and isinstance(e.value, bool)
 
 
 def _pure_expr(e):
